@@ -1,6 +1,7 @@
 import HexVerif.Lemmas.XcmpCall
 import HexVerif.Lemmas.XcmpStage3
 import HexVerif.Lemmas.XcmpPExpr
+import HexVerif.Lemmas.XcmpActualsP
 /-!
   Stage (4), definitions: the program context `GCtx` (every procedure with its code position and
   generation facts), the procedure context `KOf` of an activation as a function of its stack
@@ -35,10 +36,31 @@ def okS4L (ps : List String) : List X.Stmt → Bool
   | s :: ss => okS4 ps s && okS4L ps ss
 end
 
-/-- A right-hand side: call-free, one call with call-free actuals, or (class v3, `pk`) operators
-    over calls of pure functions. -/
-def rhs5 (pk : Bool) (ps imp : List String) (e : X.Expr) : Bool :=
-  pureE e || callE ps e || (pk && ppE ps imp e)
+/-- The first actual is a call (any callee, call-free actuals), all others are constants. -/
+def firstCallArgs (ps : List String) (ρ : String → Option Word) : List X.Expr → Bool
+  | a :: as => callE ps a && as.all (isConstL ρ)
+  | [] => false
+
+/-- The actuals of a call: call-free; or (class v3) with calls of pure functions; or one call in
+    first position next to constants. -/
+def argsOk5 (pk : Bool) (ps imp : List String) (ρ : String → Option Word) (args : List X.Expr) : Bool :=
+  args.all pureE || (pk && args.all (ppE ps imp)) || firstCallArgs ps ρ args
+
+/-- A call of one of the procedures `ps` with such actuals. -/
+def callE5 (pk : Bool) (ps imp : List String) (ρ : String → Option Word) : X.Expr → Bool
+  | .call f args => ps.contains f && argsOk5 pk ps imp ρ args
+  | _ => false
+
+theorem callE_callE5 (pk : Bool) (ps imp : List String) (ρ : String → Option Word) (e : X.Expr) (h : callE ps e = true) :
+    callE5 pk ps imp ρ e = true := by
+  cases e <;> simp [callE] at h
+  simp only [callE5, argsOk5, Bool.and_eq_true, Bool.or_eq_true, List.all_eq_true, List.contains_iff_mem]
+  exact ⟨h.1, Or.inl (Or.inl h.2)⟩
+
+/-- A right-hand side: call-free, one call, or (class v3, `pk`) operators over calls of pure
+    functions. -/
+def rhs5 (pk : Bool) (ps imp : List String) (ρ : String → Option Word) (e : X.Expr) : Bool :=
+  pureE e || callE5 pk ps imp ρ e || (pk && ppE ps imp e)
 
 /-- A condition: call-free, or (class v3) operators over calls of pure functions. -/
 def cond5 (pk : Bool) (ps imp : List String) (e : X.Expr) : Bool :=
@@ -55,13 +77,13 @@ mutual
     global constants (a call through a constant is a system call). -/
 def okS5 (pk : Bool) (ps imp : List String) (ρ : String → Option Word) : X.Stmt → Bool
   | .skip | .stop => true
-  | .ret e => rhs5 pk ps imp e
+  | .ret e => rhs5 pk ps imp ρ e
   | .ite c t e => cond5 pk ps imp c && okS5 pk ps imp ρ t && okS5 pk ps imp ρ e
   | .while c b => cond5 pk ps imp c && okS5 pk ps imp ρ b
   | .seq ss => okS5L pk ps imp ρ ss
-  | .assign _ e => rhs5 pk ps imp e
+  | .assign _ e => rhs5 pk ps imp ρ e
   | .syscall id args => decide (id < 3) && args.all pureE
-  | .call f args => (ps.contains f || valSys ρ f) && args.all pureE
+  | .call f args => (ps.contains f && argsOk5 pk ps imp ρ args) || (valSys ρ f && args.all pureE)
   | .assignSub _ i e => pureE i && pureE e
 def okS5L (pk : Bool) (ps imp : List String) (ρ : String → Option Word) : List X.Stmt → Bool
   | [] => true
@@ -75,11 +97,11 @@ theorem okS4_okS5 (pk : Bool) (ps imp : List String) (ρ : String → Option Wor
   | .ret e, h => by
     simp only [okS4, Bool.or_eq_true] at h
     simp only [okS5, rhs5, Bool.or_eq_true]
-    exact Or.inl h
+    exact Or.inl (h.imp id (callE_callE5 pk ps imp ρ e))
   | .assign _ e, h => by
     simp only [okS4, Bool.or_eq_true] at h
     simp only [okS5, rhs5, Bool.or_eq_true]
-    exact Or.inl h
+    exact Or.inl (h.imp id (callE_callE5 pk ps imp ρ e))
   | .ite c t e, h => by
     simp only [okS4, Bool.and_eq_true] at h
     simp only [okS5, cond5, Bool.and_eq_true, Bool.or_eq_true]
@@ -95,8 +117,8 @@ theorem okS4_okS5 (pk : Bool) (ps imp : List String) (ρ : String → Option Wor
   | .syscall _ _, h => by simp only [okS4] at h; simp only [okS5]; exact h
   | .call _ _, h => by
     simp only [okS4, Bool.and_eq_true] at h
-    simp only [okS5, Bool.and_eq_true, Bool.or_eq_true]
-    exact ⟨Or.inl h.1, h.2⟩
+    simp only [okS5, argsOk5, Bool.and_eq_true, Bool.or_eq_true]
+    exact Or.inl ⟨h.1, Or.inl (Or.inl h.2)⟩
   | .assignSub _ _ _, h => by simp only [okS4] at h; simp only [okS5]; exact h
 theorem okS4L_okS5L (pk : Bool) (ps imp : List String) (ρ : String → Option Word) : (ss : List X.Stmt) → okS4L ps ss = true → okS5L pk ps imp ρ ss = true
   | [], _ => rfl
